@@ -285,7 +285,7 @@ func init() {
 	Register(&Prop{
 		ID:        "C17",
 		Technique: "bounded exhaustive enumeration of enum-rule texts + explicit-state search of the enum scanner (acceptance vs encoding/json-based reference), and exhaustive lists x layouts x example values for the rule-file/inline differential",
-		Rule: "acceptance: every string of <= N tokens over a 17-token comment-free alphabet and every reachable enum-scanner state x byte class; meaning: every list of <=3 entries over 17 scalars x 5 layouts x 17 example values, `v // {enum: @e}` vs `v // {enum: [list]}`; non-trivial = accepted rule texts / project pairs that both accept",
+		Rule:      "acceptance: every string of <= N tokens over a 17-token comment-free alphabet and every reachable enum-scanner state x byte class; meaning: every list of <=3 entries over 17 scalars x 5 layouts x 17 example values, `v // {enum: @e}` vs `v // {enum: [list]}`; non-trivial = accepted rule texts / project pairs that both accept",
 		Bounds: func(tier string) map[string]any {
 			return map[string]any{"max_tokens": c17N(tier), "scalars": len(c17Scalars), "max_list": 3, "layouts": c17Layouts}
 		},
